@@ -217,6 +217,8 @@ func (o *Options) populateReporter(c *cli.Context) {
 			o.ReporterConfig.InternalTemplateName = c.Lineage()[i].String("internal-template-name")
 		}
 	}
+	// reports print dates in the same format the log is parsed with
+	o.ReporterConfig.DateFormat = o.GlobalConfig.DateFormat
 	o.ReporterConfig.SingleFood = c.String("single-food")
 	o.ReporterConfig.ElementGroupByFood = c.Bool("group-food")
 	o.ReporterConfig.SingleElement = c.String("single-element")
